@@ -702,6 +702,9 @@ def sym_sqrt(x):
   if v is not None:
     return np.sqrt(np.float64(v))
   e = ex()
+  root = _perfect_square_root(t)
+  if root is not None:
+    return Sym(z3.If(root >= 0, root, -root))      # sqrt(c^2 * x^2) = |c x| exactly (keeps the query linear)
   if not nonneg and not syntactically_nonneg(t):
     if e.branch(t < 0):
       e.warnings.append(('sqrt_neg', str(t)[:80]))
@@ -713,6 +716,31 @@ def sym_sqrt(x):
     e.cache[('sqrt_arg', s.get_id())] = (s, t)
     return Sym(s)
   return _memo('sqrt', t, make)
+
+
+def _perfect_square_root(t):
+  """r with r*r == t when t is syntactically c * x * x (c a rational perfect square), else None"""
+  coef = Fraction(1)
+  base = None
+  if z3.is_app(t) and t.decl().kind() == z3.Z3_OP_MUL:
+    ch = list(t.children())
+    if ch and _num_value(ch[0]) is not None:
+      coef = _num_value(ch[0])
+      ch = ch[1:]
+    if len(ch) == 2 and ch[0].eq(ch[1]) and z3.is_const(ch[0]):
+      base = ch[0]
+    elif len(ch) == 1 and z3.is_app(ch[0]) and ch[0].decl().kind() == z3.Z3_OP_POWER and _num_value(ch[0].arg(1)) == 2:
+      base = ch[0].arg(0)
+  elif z3.is_app(t) and t.decl().kind() == z3.Z3_OP_POWER and _num_value(t.arg(1)) == 2 and z3.is_const(t.arg(0)):
+    base = t.arg(0)
+  if base is None or coef <= 0:
+    return None
+  import math
+  n, d = coef.numerator, coef.denominator
+  rn, rd = math.isqrt(n), math.isqrt(d)
+  if rn * rn != n or rd * rd != d:
+    return None
+  return real_val(Fraction(rn, rd)) * base
 
 
 def square_of(x):
